@@ -340,11 +340,16 @@ func c10StdWorker(run *common.Run, sh common.Shard, thorough bool) {
 					run.NotExhaustive("a worker was stopped at the hang bound")
 					c10FlushWorker(run)
 				})
+				tload := time.Now()
 				pkgs, lerrs := c10Load(dir, roots, overlay)
 				if len(lerrs) > 0 {
 					common.Fatalf("std batch %v does not load after injection %s (only comments were inserted): %v", roots, pat.Name, lerrs[:1])
 				}
+				tl := time.Now()
 				diags, errs, ptxt, stack := c10Analyze(pkgs)
+				if os.Getenv("MC_VERBOSE") != "" {
+					fmt.Fprintf(os.Stderr, "C10 worker %d: %s pattern %s %s: load+analyze %.1fs (analyze %.1fs), baseline %.1fs\n", sh.I, where, pat.Name, cfg.Name, time.Since(tload).Seconds(), time.Since(tl).Seconds(), baseline.Seconds())
+				}
 				if ptxt != "" {
 					// attribute: every root package on its own
 					found := false
